@@ -83,6 +83,9 @@ type Cell struct {
 	Style int `json:"style,omitempty"`
 	// ExplicitN writes t="n" on FormulaNum/Number cells instead of relying on the default.
 	ExplicitN bool `json:"explicit_n,omitempty"`
+	// Stale marks a value left behind in a covered (non-top-left) cell of a merged range. It is written like any
+	// other value but a spreadsheet does not display it ("only the top-left value is shown", 18.3.1.55).
+	Stale bool `json:"stale,omitempty"`
 }
 
 // Display returns the value a spreadsheet shows for the cell under the General
@@ -180,6 +183,9 @@ type Options struct {
 	WorkbookPrefix string `json:"workbook_prefix,omitempty"`
 	// Extra members are appended verbatim (decoys for the detection property).
 	Extra []zipw.Member `json:"extra,omitempty"`
+	// SheetAttrOrder permutes the attributes of <sheet>: 0 name, sheetId, r:id (what Excel writes);
+	// 1 r:id, sheetId, name; 2 sheetId, r:id, name (attribute order is not significant, XML 1.0 3.1).
+	SheetAttrOrder int `json:"sheet_attr_order,omitempty"`
 }
 
 // Workbook is the whole package: sheets in workbook order, decoy parts, options.
@@ -274,7 +280,7 @@ func (w Workbook) PartName(i int) string {
 func (s Sheet) Grid() map[[2]int]string {
 	g := map[[2]int]string{}
 	for _, c := range s.Cells {
-		if d := c.Display(); d != "" {
+		if d := c.Display(); d != "" && !c.Stale {
 			g[[2]int{c.Row, c.Col}] = d
 		}
 	}
@@ -429,7 +435,7 @@ func (s Sheet) validate(part string) error {
 			}
 		}
 		for _, c := range s.Cells {
-			if m.Contains(c.Row, c.Col) && !(c.Row == m.R1 && c.Col == m.C1) && c.Display() != "" {
+			if m.Contains(c.Row, c.Col) && !(c.Row == m.R1 && c.Col == m.C1) && c.Display() != "" && !c.Stale {
 				return fmt.Errorf("merge %d: covered cell %s holds a value", i, Ref(c.Col, c.Row))
 			}
 		}
@@ -798,7 +804,14 @@ func (w Workbook) Members() ([]zipw.Member, error) {
 		if id == 0 {
 			id = i + 1
 		}
-		fmt.Fprintf(&wb, `<%ssheet name="%s" sheetId="%d" r:id="%s"/>`, wp, esc(s.Name), id, ids[i])
+		switch w.Opt.SheetAttrOrder {
+		case 1:
+			fmt.Fprintf(&wb, `<%ssheet r:id="%s" sheetId="%d" name="%s"/>`, wp, ids[i], id, esc(s.Name))
+		case 2:
+			fmt.Fprintf(&wb, `<%ssheet sheetId="%d" r:id="%s" name="%s"/>`, wp, id, ids[i], esc(s.Name))
+		default:
+			fmt.Fprintf(&wb, `<%ssheet name="%s" sheetId="%d" r:id="%s"/>`, wp, esc(s.Name), id, ids[i])
+		}
 		rels = append(rels, rel{ids[i], relBase + "worksheet", relTarget("xl", w.PartName(i), s.AbsTarget)})
 	}
 	fmt.Fprintf(&wb, `</%[1]ssheets><%[1]scalcPr calcId="0"/></%[1]sworkbook>`, wp)
